@@ -537,7 +537,7 @@ func drive(d *mon.Driver, replay string) int {
 	}
 	p.cases = nil
 	runChunk(&small, mon.PoolOpts{BatchSize: 20, BatchTimeout: 5 * time.Minute})
-	runChunk(&big, mon.PoolOpts{BatchSize: 1, Parallel: 4, BatchTimeout: 5 * time.Minute})
+	runChunk(&big, mon.PoolOpts{BatchSize: 1, Parallel: 6, BatchTimeout: 5 * time.Minute})
 
 	// ---- workload 2: scripts
 	rs := d.Rand("scripts")
